@@ -64,7 +64,7 @@ pub fn meta() -> Meta {
             "the C API sources are compiled unchanged as an rlib (capi-shim) and called through hand-declared prototypes in capi.rs; the cdylib/staticlib packaging and the generated C header are not exercised".into(),
             "the manager strong count is read from the Arc header in front of the raw manager pointer; its offset is calibrated per manager with a Rust-side clone (std's ArcInner is repr(C): strong, weak, data); if calibration fails the count checks are skipped and outcome mgr_count_unobservable is recorded".into(),
             "reference counts of terminal nodes are not stored; a lost/extra reference to a terminal is observed through the manager strong count only".into(),
-            "manager_set_var_order is called on a manager without live function handles only (reordering live nodes is the subject of C08)".into(),
+            "apart from the `orders` shards (all ordered pairs of the 16 partial/total reordering requests over 3 variables with three live handles, level maps and new functions compared with the twin) manager_set_var_order is called on a manager without live function handles only (reordering live nodes is the subject of C08)".into(),
             "the visualize entry points are called with a TCP port that the harness keeps occupied, so they return an error after having consumed their function arguments instead of blocking".into(),
             "index-based manager, 1 worker thread, capacity 1024 nodes (no allocation failure; INVALID handles are injected explicitly)".into(),
         ],
@@ -476,7 +476,7 @@ impl<K: CKind> Core<K> {
 
     fn case(&self) -> serde_json::Value {
         json!({"kind": K::NAME, "nodes": 1024, "cache": 1024, "threads": 1, "calls": self.trace,
-               "legend": "m = oxidd_<kind>_manager_new(1024, 1024, 1); hN = handle returned by the N-th handle-returning call (copies obtained through ref have the same value and print under the name of the first owned copy); every listed call is executed in order on one manager"})
+               "legend": "m = oxidd_<kind>_manager_new(1024, 1024, 1) (big shards: (131072, 1024, 2)); hN = handle returned by the N-th handle-returning call (copies obtained through ref have the same value and print under the name of the first owned copy); every listed call is executed in order on one manager"})
     }
 
     pub fn viol(&mut self, ctx: &mut Ctx, op: &str, class: &str, msg: &str) {
@@ -744,18 +744,26 @@ pub struct St<K: CKind> {
 
 pub const NV: u32 = 3;
 
+/// `big` shards: node store above the 65536-node threshold of the index backend and two workers
+/// (worker threads keep private node counters / free lists)
+static BIG: std::sync::atomic::AtomicBool = std::sync::atomic::AtomicBool::new(false);
+fn mgr_cfg() -> (usize, usize, u32) {
+    if BIG.load(Ordering::Relaxed) { (1 << 17, 1024, 2) } else { (1024, 1024, 1) }
+}
+
 impl<K: CKind> St<K> {
     /// fresh C manager + twin, 3 variables, pool: s0, s1 valid, s2 INVALID
     pub fn new(ctx: &mut Ctx) -> St<K> {
         let api = K::api();
-        let cm = unsafe { (api.manager_new)(1024, 1024, 1) };
+        let (cap, cache, threads) = mgr_cfg();
+        let cm = unsafe { (api.manager_new)(cap, cache, threads) };
         assert!(!cm.p.is_null(), "harness: manager_new returned an invalid manager");
         let off = calibrate::<K>(cm.p);
         if off.is_none() {
             ctx.outcome("mgr_count_unobservable");
         }
         let base = off.map(|o| strong_at(cm.p, o) - 1).unwrap_or(0);
-        let tm = K::new_manager(1024, 1024, 1);
+        let tm = K::new_manager(cap, cache, threads);
         let mut core: Core<K> = Core {
             cm,
             off,
@@ -770,7 +778,7 @@ impl<K: CKind> St<K> {
             calls: 0,
             last_audit: AuditInfo::default(),
         };
-        core.log(format!("m = {}(1024, 1024, 1)", core.cname("manager_new")));
+        core.log(format!("m = {}({cap}, {cache}, {threads})", core.cname("manager_new")));
         core.post(ctx, "manager_new");
         let r = unsafe { (api.manager_add_vars)(cm, NV) };
         let tr = core.tm.with_manager_exclusive(|m| m.add_vars(NV));
@@ -781,7 +789,18 @@ impl<K: CKind> St<K> {
         core.post(ctx, "manager_add_vars");
         let (o0, o1) = if K::ZB { (Op::Var(0), Op::Singleton(1)) } else { (Op::Var(0), Op::Var(1)) };
         let s0 = core.fcall(ctx, &o0, &[]);
-        let s1 = core.fcall(ctx, &o1, &[]);
+        let mut s1 = core.fcall(ctx, &o1, &[]);
+        if BIG.load(Ordering::Relaxed) {
+            // slot 1 holds a diagram with several nodes that were created by the worker threads:
+            // (s1 op x2) op x0 with op = xor (BDD/BCDD) resp. union (ZBDD)
+            let op = if K::ZB { Op::Union } else { Op::Bin(BinOp::Xor) };
+            let x2 = core.fcall(ctx, &if K::ZB { Op::Singleton(2) } else { Op::Var(2) }, &[]);
+            let a = core.fcall(ctx, &op, &[&s1, &x2]);
+            let b = core.fcall(ctx, &op, &[&a, &s0]);
+            core.release(ctx, x2);
+            core.release(ctx, a);
+            core.release(ctx, std::mem::replace(&mut s1, b));
+        }
         St { core, slots: vec![s0, s1, Val::invalid()], next: 2 }
     }
 
@@ -1442,6 +1461,10 @@ pub fn shards(tier: &str) -> Vec<String> {
         for c in 0..CORE {
             v.push(format!("{k}:c{c}"));
         }
+        for c in 0..CORE {
+            v.push(format!("{k}:big{c}"));
+        }
+        v.push(format!("{k}:orders"));
     }
     v
 }
@@ -1457,7 +1480,23 @@ pub fn run(ctx: &mut Ctx) {
     }
     let shard = ctx.shard.clone();
     let (k, rest) = shard.split_once(':').expect("bad shard");
-    let first = match rest {
+    let rest = match rest.strip_prefix("big") {
+        Some(c) => {
+            BIG.store(true, Ordering::Relaxed);
+            format!("c{c}")
+        }
+        None => rest.to_string(),
+    };
+    if rest == "orders" {
+        match k {
+            "bdd" => orders_group::<Bdd>(ctx),
+            "bcdd" => orders_group::<Bcdd>(ctx),
+            "zbdd" => orders_group::<Zbdd>(ctx),
+            _ => panic!("bad shard"),
+        }
+        return;
+    }
+    let first = match rest.as_str() {
         "root" => First::Root,
         r if r.starts_with('c') => First::Core(r[1..].parse().expect("bad shard")),
         r => First::Full(r.parse().expect("bad shard")),
@@ -2413,4 +2452,70 @@ fn sweep_vars<K: CKind>(ctx: &mut Ctx, st: &mut St<K>, va: &Val<K>, vb: &Val<K>)
     for v in [p, q, r] {
         core.release(ctx, v);
     }
+}
+
+/// Every ordered pair of reordering requests (all sequences of 0..3 distinct variables, i.e. partial
+/// and total orders) issued one after the other through the C API and on the twin, with the two
+/// initial handles alive; after each request the level maps, the handles and a few new functions
+/// must agree with the twin.
+fn orders_group<K: CKind>(ctx: &mut Ctx) {
+    let mut reqs: Vec<Vec<u32>> = vec![vec![]];
+    for a in 0..NV {
+        reqs.push(vec![a]);
+        for b in 0..NV {
+            if b != a {
+                reqs.push(vec![a, b]);
+                for c in 0..NV {
+                    if c != a && c != b {
+                        reqs.push(vec![a, b, c]);
+                    }
+                }
+            }
+        }
+    }
+    let api = K::api();
+    ctx.group("reorder request pairs", |ctx| {
+        for r1 in &reqs {
+            for r2 in &reqs {
+                ctx.count("executions", 1);
+                let mut st = St::<K>::new(ctx);
+                // a third variable below/above the two initial handles
+                let x2 = st.core.fcall(ctx, &if K::ZB { Op::Singleton(2) } else { Op::Var(2) }, &[]);
+                st.put(ctx, x2);
+                for r in [r1, r2] {
+                    let core = &mut st.core;
+                    if core.failed {
+                        break;
+                    }
+                    let cm = core.cm;
+                    unsafe { (api.manager_set_var_order)(cm, r.as_ptr(), r.len()) };
+                    K::set_order(&core.tm, r);
+                    core.log(format!("{}(m, {r:?}, {})", core.cname("manager_set_var_order"), r.len()));
+                    core.post(ctx, "manager_set_var_order");
+                    for v in 0..NV {
+                        let tl = core.tm.with_manager_shared(|m| m.var_to_level(v));
+                        core.scalar(ctx, "manager_var_to_level", &format!("m, {v}"), unsafe { (api.manager_var_to_level)(cm, v) }, tl);
+                        let tv = core.tm.with_manager_shared(|m| m.level_to_var(v));
+                        core.scalar(ctx, "manager_level_to_var", &format!("m, {v}"), unsafe { (api.manager_level_to_var)(cm, v) }, tv);
+                    }
+                    ctx.count("transitions", 1);
+                    if ctx.distinct(st.state_hash()) {
+                        ctx.count("states", 1);
+                    }
+                }
+                if !st.core.failed {
+                    // new functions agree with the twin under the new order
+                    let (core, slots) = (&mut st.core, &st.slots);
+                    let op = if K::ZB { Op::Union } else { Op::Bin(BinOp::Xor) };
+                    let a = core.fcall(ctx, &op, &[&slots[0], &slots[2]]);
+                    let b = core.fcall(ctx, &op, &[&a, &slots[1]]);
+                    core.release(ctx, a);
+                    core.release(ctx, b);
+                    ctx.count("nontrivial", 1);
+                }
+                st.finish(ctx);
+            }
+        }
+        flush_releases();
+    });
 }
